@@ -1,4 +1,4 @@
-import Cbor.Lemmas.CopyFrame
+import Cbor.Lemmas.Indep
 /-!
 # C11 — cbor_copy yields an equal, fully independent tree and leaves the source intact
 
@@ -10,8 +10,12 @@ clean-up paths).  Proved here, for every tree, every heap whose books are in ord
 * `C11_books`: after a successful copy the reference-count invariant holds with the client owning exactly one
   more reference, the copy's root;
 * `copy_scalar`, `copy_string`: the exact result for leaves (same type, width, value / bytes, count 1).
-That the copy *denotes the same value* as the source (`val`) for containers, tags and chunked strings is decided
-by the history correspondence and the harness's dump / serialization / mutation checks; see DESIGN.md.
+* `C11_copy`: for every tree `t`, every (acyclic) heap in which the source denotes `t`, and every allocator oracle: a
+  successful copy is an **exclusively owned tree denoting the same `t`** — same types, widths, flavour, chunking and member
+  order — laid out in exactly the cells the copy created, every one of them with reference count one; a failed copy has
+  released every cell it created (the heap reads exactly as before); either way no pre-existing cell changed;
+* `C11_copy_denotes`, `C11_copy_counts_one`, `C11_same_bytes`: the consequences spelled out;
+* `C11_release_copy`, `C11_release_source`: either tree can be released without any effect on the other.
 -/
 namespace Props.C11
 open Heap
@@ -98,5 +102,93 @@ theorem C11_books (ω : Oracle) (h : H) (own : Ref → Nat) (hc : Counts h own) 
     | some r' => Counts (h.copy ω r).2 (bump own r' 1)
     | none => Counts (h.copy ω r).2 own :=
   (copy_counts_all ω h.copyFuel).1 h r own hc hf
+
+/-- the source containers are acyclic (the client obligation named in C04): some rank strictly decreases from every
+live container to its members -/
+abbrev Acyclic (h : H) : Prop := ∃ rank : Ref → Nat, ∀ r c, h.get r = some c → ∀ x ∈ c.node.children, rank x < rank r
+
+/-- **`cbor_copy`, fully.**  If item `x` denotes the tree `t` (`Den`: types, widths, values, flavour, chunk boundaries, member
+order; sub-items may be shared), then for every allocator oracle: the fault flag is untouched (no assertion, no NULL
+dereference, no use of a released item on any clean-up path), no pre-existing cell changes, and
+* on success the result `y` is an *exclusively owned* tree for the same `t`, occupying exactly the cells the copy created
+  (`Own`: every node has reference count one, no node is used twice, nothing outside the new cells is part of it);
+* on failure the heap reads exactly as it did before the call: everything allocated on the way has been released. -/
+theorem C11_copy (ω : Oracle) (h : H) (t : Spec.Item) (x : Ref) (hd : Den t h x) (hac : Acyclic h) :
+    (h.copy ω x).2.fault = h.fault ∧
+    (∀ r : Nat, r < h.cells.length → (h.copy ω x).2.get r = h.get r) ∧
+    match (h.copy ω x).1 with
+    | some y => Own t (h.copy ω x).2 y h.cells.length (h.copy ω x).2.cells.length
+    | none => ∀ r : Nat, (h.copy ω x).2.get r = h.get r := by
+  have hp := copy_spec_top ω t h.copyFuel h x hd (need_le_copyFuel h hac t x hd)
+  unfold H.copy
+  obtain ⟨h1, h2, h3, h4⟩ := hp
+  refine ⟨h1, h3, ?_⟩
+  cases hr : (copy ω h.copyFuel h x).1 with
+  | some y => rw [hr] at h4; exact h4
+  | none =>
+    rw [hr] at h4
+    intro r
+    by_cases hlt : r < h.cells.length
+    · exact h3 r hlt
+    · rw [h4 r (by omega), get_none_of_ge h r (by omega)]
+
+/-- the copy denotes the same tree as the source -/
+theorem C11_copy_denotes (ω : Oracle) (h : H) (t : Spec.Item) (x : Ref) (hd : Den t h x) (hac : Acyclic h) (y : Ref)
+    (hs : (h.copy ω x).1 = some y) : Den t (h.copy ω x).2 y := by
+  have := (C11_copy ω h t x hd hac).2.2
+  rw [hs] at this
+  exact own_den t y _ _ this
+
+/-- hence it serializes to the same bytes: both denote `t`, and the serializer's output is a function of the tree
+(`Props.C03`: `Spec.encode t`) -/
+theorem C11_same_bytes (ω : Oracle) (h : H) (t : Spec.Item) (x : Ref) (hd : Den t h x) (hac : Acyclic h) (y : Ref)
+    (hs : (h.copy ω x).1 = some y) : ∃ t', Den t' (h.copy ω x).2 y ∧ Spec.encode t' = Spec.encode t :=
+  ⟨t, C11_copy_denotes ω h t x hd hac y hs, rfl⟩
+
+/-- every cell the copy created is live with reference count one, and the copy's root is one of them -/
+theorem C11_copy_counts_one (ω : Oracle) (h : H) (t : Spec.Item) (x : Ref) (hd : Den t h x) (hac : Acyclic h) (y : Ref)
+    (hs : (h.copy ω x).1 = some y) :
+    h.cells.length ≤ y ∧ ∀ r, h.cells.length ≤ r → r < (h.copy ω x).2.cells.length → ∃ c, (h.copy ω x).2.get r = some c ∧ c.rc = 1 := by
+  have := (C11_copy ω h t x hd hac).2.2
+  rw [hs] at this
+  exact ⟨(own_lt t y _ _ this).2.1, own_all_one t _ y _ _ this⟩
+
+/-- **Releasing the copy** releases exactly the cells the copy created: afterwards every pre-existing cell — the source
+included — reads as it did before the copy was made -/
+theorem C11_release_copy (ω : Oracle) (h : H) (t : Spec.Item) (x : Ref) (hd : Den t h x) (hac : Acyclic h) (y : Ref)
+    (hs : (h.copy ω x).1 = some y) :
+    ((h.copy ω x).2.decref y).fault = h.fault ∧ ∀ r : Nat, ((h.copy ω x).2.decref y).get r = h.get r := by
+  obtain ⟨h1, h2, h3⟩ := C11_copy ω h t x hd hac
+  rw [hs] at h3
+  have hf := hdecref_own h3 (Nat.le_refl _)
+  refine ⟨hf.1.trans h1, fun r => ?_⟩
+  by_cases hlt : r < h.cells.length
+  · rw [hf.2.2.2.2 r (Or.inl hlt)]; exact h2 r hlt
+  · by_cases hlt' : r < (h.copy ω x).2.cells.length
+    · rw [hf.2.2.2.1 r (by omega) hlt', get_none_of_ge h r (by omega)]
+    · rw [hf.2.2.2.2 r (Or.inr (by omega)), get_none_of_ge _ r (by omega), get_none_of_ge h r (by omega)]
+
+/-- **Releasing the source** (or any other pre-existing item) after the copy leaves the copy exactly as it was: still an
+exclusively owned tree for `t` -/
+theorem C11_release_source (ω : Oracle) (h : H) (own : Ref → Nat) (hc : Counts h own) (t : Spec.Item) (x : Ref) (hd : Den t h x)
+    (hac : Acyclic h) (y : Ref) (hs : (h.copy ω x).1 = some y) (z : Ref) (hz : z < h.cells.length) :
+    Own t ((h.copy ω x).2.decref z) y h.cells.length (h.copy ω x).2.cells.length := by
+  obtain ⟨_, h2, h3⟩ := C11_copy ω h t x hd hac
+  rw [hs] at h3
+  have hcl : Closed h.cells.length (h.copy ω x).2 := closed_congr (closed_of_counts hc) h2
+  exact own_congr t y _ _ (fun r hr _ => hdecref_below hcl hz r hr) h3
+
+/-! non-vacuity: the hypotheses are satisfiable — a heap in which an array holds the same integer twice (a shared
+sub-item); it denotes `[7, 7]` and is acyclic -/
+example :
+    let h : H := { cells := [some ⟨.int false .w8 7, 3⟩, some ⟨.arr false [0, 0] 2, 1⟩] }
+    Den (.arrayI [.uint .w8 7, .uint .w8 7]) h 1 ∧ Acyclic h := by
+  refine ⟨?_, ⟨fun r => r, ?_⟩⟩
+  · simp [Den, DenList, H.get]
+  · intro r c hg x hx
+    match r, hg with
+    | 0, hg => simp [H.get] at hg; subst hg; simp [Node.children] at hx
+    | 1, hg => simp [H.get] at hg; subst hg; simp [Node.children] at hx; subst hx; exact Nat.zero_lt_one
+    | r+2, hg => simp [H.get] at hg
 
 end Props.C11
